@@ -22,14 +22,48 @@ Qed.
 Lemma reg_ids_range n i : In i (reg_ids n) -> 0 <= i < n.
 Proof. unfold reg_ids. intros H. apply in_map_iff in H as (k & <- & Hk). apply in_seq in Hk. lia. Qed.
 
+(* a slice r[a:b] with literal ends and step 1: the bits a, a+1, ..., b-1 as the model's range function lists them, both
+   ends checked against the register (an absent start is 0, an absent end the register size) *)
+Definition slice_ids (a b : Z) : list Z := map (fun k => a + Z.of_nat k * 1) (seq 0 (Z.to_nat (b - a))).
+Definition lit_end (e : option expr) (default : Z) : option Z :=
+  match e with None => Some default | Some (ELit (VInt z)) => Some z | Some _ => None end.
+
 Definition opnd_bits (m : list (string * Z)) (q : qarg) : option (list bitref) :=
   match q with
   | QId r => match sget r m with
              | Some n => if (1 <=? n) && (n <=? 100000) then Some (reg_bits r n) else None
              | None => None
              end
+  | QIdx r [IdxList [IRange ea eb None]] =>
+      match sget r m with
+      | Some n =>
+          match lit_end ea 0, lit_end eb n with
+          | Some a, Some b =>
+              if (0 <=? a) && (a <? n) && (0 <=? b - 1) && (b - 1 <? n) && (a <=? b) && (n <=? 100000)
+              then Some (map (fun i => (r, i)) (slice_ids a b)) else None
+          | _, _ => None
+          end
+      | None => None
+      end
   | _ => match lit_bit q with Some b => if in_reg m b then Some [b] else None | None => None end
   end.
+
+Lemma py_range_slice a b : a <= b -> b - a <= 100000 -> py_range a b 1 = Ok (slice_ids a b).
+Proof.
+  intros H H2. unfold py_range, slice_ids. cbn [Z.eqb Z.ltb Z.compare].
+  replace ((b - a + 1 - 1) / 1) with (b - a) by (rewrite Z.div_1_r; lia).
+  rewrite Z.max_r by lia. assert (100000 <? b - a = false) as -> by (apply Z.ltb_ge; lia). reflexivity.
+Qed.
+
+Lemma slice_ids_range a b i : In i (slice_ids a b) -> a <= i < b.
+Proof. unfold slice_ids. intros H. apply in_map_iff in H as (k & <- & Hk). apply in_seq in Hk. lia. Qed.
+
+Lemma lit_end_eval call_rec e d z s : lit_end e d = Some z ->
+  (match e with None => ret d | Some x => v <- eval0 call_rec x false None;; as_index v end) s = Ok (z, s).
+Proof.
+  destruct e as [x|]; cbn [lit_end]; [|intros H; injection H as <-; reflexivity].
+  destruct x; try discriminate. destruct v; try discriminate. intros H. injection H as <-. reflexivity.
+Qed.
 
 Lemma opnd_bits_in_reg m q bits : opnd_bits m q = Some bits -> forallb (in_reg m) bits = true.
 Proof.
@@ -37,8 +71,19 @@ Proof.
   - destruct (sget r m) as [n|] eqn:Es; [|discriminate]. destruct ((1 <=? n) && (n <=? 100000)); [|discriminate].
     intros H. injection H as <-. apply forallb_forall. intros b Hb. unfold reg_bits in Hb. apply in_map_iff in Hb as (i & <- & Hi).
     apply reg_ids_range in Hi. unfold in_reg. cbn [fst snd]. rewrite Es. apply andb_true_iff. split; [apply Z.leb_le|apply Z.ltb_lt]; lia.
-  - destruct (lit_bit (QIdx r idx)) as [b|]; [|discriminate]. destruct (in_reg m b) eqn:Eb; [|discriminate].
-    intros H. injection H as <-. cbn. now rewrite Eb.
+  - assert (Hlit : match lit_bit (QIdx r idx) with Some b => if in_reg m b then Some [b] else None | None => None end = Some bits ->
+                    forallb (in_reg m) bits = true).
+    { destruct (lit_bit (QIdx r idx)) as [b|]; [|discriminate]. destruct (in_reg m b) eqn:Eb; [|discriminate].
+      intros H. injection H as <-. cbn. now rewrite Eb. }
+    destruct idx as [|[vals|[|[e|ea eb [ec|]] [|it2 items']]] [|i1 idx']]; try exact Hlit.
+    destruct (sget r m) as [n|] eqn:Es; [|discriminate].
+    destruct (lit_end ea 0) as [a|]; [|discriminate]. destruct (lit_end eb n) as [b|]; [|discriminate].
+    match goal with |- (if ?c then _ else _) = _ -> _ => destruct c eqn:C; [|discriminate] end.
+    intros H. injection H as <-.
+    apply andb_true_iff in C as [C _]. apply andb_true_iff in C as [C _]. apply andb_true_iff in C as [C B1]. apply andb_true_iff in C as [C B0].
+    apply andb_true_iff in C as [A0 A1]. apply Z.leb_le in A0, B0. apply Z.ltb_lt in A1, B1.
+    apply forallb_forall. intros x Hx. apply in_map_iff in Hx as (i & <- & Hi). apply slice_ids_range in Hi.
+    unfold in_reg. cbn [fst snd]. rewrite Es. apply andb_true_iff. split; [apply Z.leb_le|apply Z.ltb_lt]; lia.
 Qed.
 
 Section Ops.
@@ -61,12 +106,39 @@ Proof.
     assert (Hl : name_in_levels s r = true) by (destruct is_q; [eapply R_lvq|eapply R_lvc]; eauto).
     rewrite Hl. cbn [guard]. rewrite (bind_eq _ _ s tt s eq_refl). rewrite Hm.
     rewrite (bind_eq _ _ s (reg_ids n) s); [reflexivity|]. unfold lift. now rewrite py_range_reg by lia.
-  - assert (H' := H). cbn [opnd_bits] in H'. destruct (lit_bit (QIdx r idx)) as [b|] eqn:Eb; [|discriminate].
-    destruct (in_reg _ b) eqn:Ei; [|discriminate]. injection H' as <-. rewrite (lit_bit_qarg_of _ b Eb).
-    destruct b as [r0 i]. unfold in_reg in Ei. cbn [fst snd] in Ei.
-    destruct (sget r0 (if is_q then e_q env else e_c env)) as [n|] eqn:Hs; [|discriminate].
-    apply andb_true_iff in Ei as [H0 H1]. apply Z.leb_le in H0. apply Z.ltb_lt in H1.
-    eapply resolve_literal; eauto; lia.
+  - assert (Hlit : match lit_bit (QIdx r idx) with
+                    | Some b => if in_reg (if is_q then e_q env else e_c env) b then Some [b] else None
+                    | None => None end = Some bits ->
+                    resolve_one call_rec (QIdx r idx) (if is_q then qreg_sizes s else creg_sizes s) is_q s = Ok (bits, s)).
+    { intros H'. destruct (lit_bit (QIdx r idx)) as [b|] eqn:Eb; [|discriminate].
+      destruct (in_reg _ b) eqn:Ei; [|discriminate]. injection H' as <-. rewrite (lit_bit_qarg_of _ b Eb).
+      destruct b as [r0 i]. unfold in_reg in Ei. cbn [fst snd] in Ei.
+      destruct (sget r0 (if is_q then e_q env else e_c env)) as [n|] eqn:Hs; [|discriminate].
+      apply andb_true_iff in Ei as [H0 H1]. apply Z.leb_le in H0. apply Z.ltb_lt in H1.
+      eapply resolve_literal; eauto; lia. }
+    cbn [opnd_bits] in H.
+    destruct idx as [|[vals|[|[e|ea eb [ec|]] [|it2 items']]] [|i1 idx']]; try exact (Hlit H).
+    destruct (sget r (if is_q then e_q env else e_c env)) as [n|] eqn:Hs; [|discriminate].
+    destruct (lit_end ea 0) as [a|] eqn:Ea; [|discriminate]. destruct (lit_end eb n) as [b|] eqn:Eb; [|discriminate].
+    match type of H with (if ?c then _ else _) = _ => destruct c eqn:C; [|discriminate] end. injection H as <-.
+    apply andb_true_iff in C as [C N1]. apply andb_true_iff in C as [C AB]. apply andb_true_iff in C as [C B1]. apply andb_true_iff in C as [C B0].
+    apply andb_true_iff in C as [A0 A1]. apply Z.leb_le in A0, B0, AB, N1. apply Z.ltb_lt in A1, B1.
+    unfold resolve_one, qarg_name. rewrite (bind_eq _ _ s s s eq_refl).
+    assert (Hm : sget r (if is_q then qreg_sizes s else creg_sizes s) = Some n).
+    { destruct is_q; [rewrite (R_q _ _ R)|rewrite (R_c _ _ R)]; exact Hs. }
+    rewrite Hm. rewrite (bind_eq _ _ s (false, if is_q then qreg_sizes s else creg_sizes s) s eq_refl).
+    assert (Hl : name_in_levels s r = true) by (destruct is_q; [eapply R_lvq|eapply R_lvc]; eauto).
+    rewrite Hl. cbn [guard]. rewrite (bind_eq _ _ s tt s eq_refl). rewrite Hm.
+    rewrite (bind_eq _ _ s (slice_ids a b) s); [reflexivity|].
+    unfold range_ids.
+    rewrite (bind_eq _ _ s a s (lit_end_eval call_rec ea 0 a s Ea)).
+    rewrite (bind_eq _ _ s b s (lit_end_eval call_rec eb n b s Eb)).
+    rewrite (bind_eq _ _ s 1 s eq_refl).
+    unfold validate_index.
+    assert ((0 <=? a) && (a <? n) = true) as -> by (apply andb_true_iff; split; [apply Z.leb_le|apply Z.ltb_lt]; lia).
+    rewrite (bind_eq _ _ s tt s eq_refl).
+    assert ((0 <=? b - 1) && (b - 1 <? n) = true) as -> by (apply andb_true_iff; split; [apply Z.leb_le|apply Z.ltb_lt]; lia).
+    rewrite (bind_eq _ _ s tt s eq_refl). unfold lift. rewrite py_range_slice by lia. reflexivity.
 Qed.
 
 Lemma dedup_check_ext l : forall s1 s2, (forall y, existsb (bitref_eqb y) s1 = existsb (bitref_eqb y) s2) ->
@@ -211,9 +283,13 @@ Lemma opnd_bits_name m q bits : opnd_bits m q = Some bits -> smemk (qarg_name q)
 Proof.
   destruct q as [r|r idx]; cbn [opnd_bits qarg_name].
   - destruct (sget r m) eqn:E; [|discriminate]. intros _. eapply smemk_of; eauto.
-  - destruct (lit_bit (QIdx r idx)) as [b|] eqn:Eb; [|discriminate]. destruct (in_reg m b) eqn:Ei; [|discriminate]. intros _.
-    pose proof (lit_bit_name _ _ Eb) as Hn. cbn [qarg_name] in Hn. rewrite Hn. unfold in_reg in Ei.
-    destruct (sget (fst b) m) eqn:E; [|discriminate]. eapply smemk_of; eauto.
+  - assert (Hlit : match lit_bit (QIdx r idx) with Some b => if in_reg m b then Some [b] else None | None => None end = Some bits ->
+                    smemk r m = true).
+    { destruct (lit_bit (QIdx r idx)) as [b|] eqn:Eb; [|discriminate]. destruct (in_reg m b) eqn:Ei; [|discriminate]. intros _.
+      pose proof (lit_bit_name _ _ Eb) as Hn. cbn [qarg_name] in Hn. rewrite Hn. unfold in_reg in Ei.
+      destruct (sget (fst b) m) eqn:E; [|discriminate]. eapply smemk_of; eauto. }
+    destruct idx as [|[vals|[|[e|ea eb [ec|]] [|it2 items']]] [|i1 idx']]; try exact Hlit.
+    destruct (sget r m) eqn:E; [|discriminate]. intros _. eapply smemk_of; eauto.
 Qed.
 
 Lemma measure_bcast env s q c bq bc : Regs env s ->
